@@ -78,13 +78,13 @@ theorem sum_filter_pos_cells [Inhabited α] (l : List (BCell α)) (h : ∀ b ∈
     · have : a.count = 0 := by omega
       simp [List.filter_cons, this, ih']
 
-/-- T10.b  Conservation through the whole harvest — every tree shape, every mixture of suppressed leaves, cached
-sub-trees, refinement and in-place rescaling of shared bucket objects, every RNG stream: the buckets `harvest` returns
-for a well-shaped tree (`Shape`: what every tree a forest hands out satisfies, `C18_forest_tree`) are either none at all
-or their counts add up to the root's released count or one less. (`low_threshold ≥ 0`.) -/
-theorem C10_harvest_conservation [Inhabited α] (E : Env α) (c : FCtx α) (hlt : 0 ≤ c.ap.supp.lt) (root : Node α)
+/-- T10 (whole harvest, with the reason for an empty release): as `C10_harvest_conservation`, and when nothing at all is
+released the root itself fails the low-count filter on the rows it holds (it is a suppressed leaf) — a branch always
+releases something adding up to its count. -/
+theorem C10_harvest_conservation_strong [Inhabited α] (E : Env α) (c : FCtx α) (hlt : 0 ≤ c.ap.supp.lt) (root : Node α)
     (hsh : Shape root) (stream : List Nat) (bs : List (BCell α)) (n : Nat) (h : harvest E c root stream = .ok (bs, n)) :
-    bs = [] ∨ ∃ N, root.noisyCount E c = .ok N ∧ ((bs.map (·.count)).sum = N ∨ (bs.map (·.count)).sum = N - 1) := by
+    (bs = [] ∧ root.overThreshold E c c.ap.supp.lt = false) ∨
+      ∃ N, root.noisyCount E c = .ok N ∧ ((bs.map (·.count)).sum = N ∨ (bs.map (·.count)).sum = N - 1) := by
   unfold harvest at h
   split at h
   · cases h
@@ -94,8 +94,8 @@ theorem C10_harvest_conservation [Inhabited α] (E : Env α) (c : FCtx α) (hlt 
     have hG0 : GInv E c root ({ stream := stream } : HState α) :=
       ⟨fun id hid => by simp at hid, fun p hp => by simp at hp, fun id hid => by simp at hid⟩
     obtain ⟨⟨_, hG, hgood⟩, hcons⟩ := (harvest_all E c hlt root 100000).1 root _ ids s hsh Reach.refl hG0 hrun
-    rcases hcons (by simp) with ⟨rfl, _⟩ | ⟨N, hN, hsum⟩
-    · left; simp
+    rcases hcons (by simp) with ⟨rfl, hsup⟩ | ⟨N, hN, hsum⟩
+    · left; exact ⟨by simp, hsup⟩
     · right
       refine ⟨N, hN, ?_⟩
       have e := sum_filter_pos_cells (ids.map fun id => s.cells[id]!) (by
@@ -106,6 +106,17 @@ theorem C10_harvest_conservation [Inhabited α] (E : Env α) (c : FCtx α) (hlt 
         rw [List.map_map]; rfl
       rw [e2] at e
       rw [e]; exact hsum
+
+/-- T10.b  Conservation through the whole harvest — every tree shape, every mixture of suppressed leaves, cached
+sub-trees, refinement and in-place rescaling of shared bucket objects, every RNG stream: the buckets `harvest` returns
+for a well-shaped tree (`Shape`: what every tree a forest hands out satisfies, `C18_forest_tree`) are either none at all
+or their counts add up to the root's released count or one less. (`low_threshold ≥ 0`.) -/
+theorem C10_harvest_conservation [Inhabited α] (E : Env α) (c : FCtx α) (hlt : 0 ≤ c.ap.supp.lt) (root : Node α)
+    (hsh : Shape root) (stream : List Nat) (bs : List (BCell α)) (n : Nat) (h : harvest E c root stream = .ok (bs, n)) :
+    bs = [] ∨ ∃ N, root.noisyCount E c = .ok N ∧ ((bs.map (·.count)).sum = N ∨ (bs.map (·.count)).sum = N - 1) := by
+  rcases C10_harvest_conservation_strong E c hlt root hsh stream bs n h with ⟨h1, _⟩ | h2
+  · exact Or.inl h1
+  · exact Or.inr h2
 
 /-- T10 (shape)  every bucket `harvest` returns has exactly as many ranges as the tree has columns, and each range is
 the released range (`bucket_intervals`) — for that very column — of a node reachable from the tree (a node of the tree,
